@@ -400,7 +400,9 @@ def main(chk):
         rel = [c for c in M.calls(rq) if isinstance(c.func, ast.Attribute) and c.func.attr == 'release']
         tries = [t for t in ast.walk(rq) if isinstance(t, ast.Try)]
         in_finally = [c for c in rel if any(any(c is x for x in ast.walk(fb)) for t in tries for fb in t.finalbody)]
-        chk.decide(len(rel) == 1 and len(in_finally) == 1 and ('queue_lock_map[%s]' % idv) in U(rel[0]), 'command-lock-handoff',
+        from verif_static import norm as N_
+        ld_rq = N_.local_defs(rq.body)
+        chk.decide(len(rel) == 1 and len(in_finally) == 1 and ('queue_lock_map[%s]' % idv) in U(N_.inline(rel[0], ld_rq)).replace(U(N_.inline(ast.Name(id=idv, ctx=ast.Load()), ld_rq)), idv), 'command-lock-handoff',
                    'run:release-exactly-once-in-finally', node=rel[0] if rel else rq, file=CT, func='run_queued_commands',
                    detail_bad='the command lock of the popped id is not released exactly once on every exit (normal and exceptional): '
                               '%d release site(s), %d inside finally' % (len(rel), len(in_finally)),
@@ -461,6 +463,26 @@ def main(chk):
     chk.decide(bool(loops) and U(loops[0].test) == 'self.pause', 'command-lock-handoff', 'solver:stays-paused', node=wf, file=CT,
                func='wait_for_cmd', detail_bad='the solver does not stay at the control point while the pause set is non-empty',
                detail_ok='while self.pause')
+    # `solver_paused` is what wait() polls: it may be true only while the solver sits in the pause loop.  On every path through wait_for_cmd that sets it, the last
+    # store before the method returns resets it - a flag left standing lets a later wait() return while the solver is running (second pause cycle)
+    from verif_static import paths as PT
+    wpaths = [p_ for p_ in PT.enumerate_paths(M.docstring_stripped(wf.body)) if p_[-1].kind != 'raise']
+    polled = sorted(set(x.attr for m_ in ('wait',) for l_ in ast.walk(lm.meths.get(m_)) if isinstance(l_, ast.While) for x in ast.walk(l_.test)
+                        if isinstance(x, ast.Attribute) and isinstance(x.value, ast.Name) and x.value.id == 'self')) if lm.meths.get('wait') is not None else []
+    for fl in polled:
+        bad_ = None
+        sets = 0
+        for p_ in wpaths:
+            sto = [(i, v) for i, tg, v in PT.stores_on(p_) if tg == 'self.' + fl]
+            if sto:
+                sets += 1
+                last = sto[-1][1]
+                if not (isinstance(last, ast.Constant) and not last.value):
+                    bad_ = bad_ or U(last)
+        if sets:
+            chk.decide(bad_ is None, 'command-lock-handoff', 'solver:%s-reset-on-leaving-the-control-point' % fl, node=wf, file=CT, func='wait_for_cmd',
+                       detail_bad='a path through wait_for_cmd leaves self.%s = %s behind: wait() polls that flag, so a later wait() returns at once although the solver is running' % (fl, bad_),
+                       detail_ok='every path that sets self.%s stores a false value last' % fl)
     # the solver calls the handler at its control point
     sol = M.py(SOL)
     solve = M.find_method(sol, 'Solver', 'solve')
